@@ -7,7 +7,7 @@ from .deb822model import Model, KEY_RE
 
 META = {
     'design_ref': 'DESIGN.md §5 C08',
-    'technique': 'regular-language emptiness/inclusion: language of the values accepted by validate_input (paths of the function with helpers inlined and locals substituted; per-line loop summarised by the paths of its body; per-path number of unchecked lines) composed with the dump template extracted from _dump_format, split into reader lines (both newline conventions) and intersected with the reader regexes; CFG dominance rule on the __setitem__ resolved through the MRO: the validation (direct or through a hook method) dominates every statement that changes the object; who-may-catch rule: an assignment that runs the validator is not enclosed by a handler for ValueError; who-may-write rule for the value table of the mapping; positional/keyword agreement rule for the *args wrappers of the paragraph constructor (what is read from kwargs by name is read at its position too); hand-over of the wrapped constructor arguments interpreted under five calling conventions',
+    'technique': 'regular-language emptiness/inclusion: language of the values accepted by validate_input (paths of the function with helpers inlined and locals substituted; per-line loop summarised by the paths of its body; per-path number of unchecked lines) composed with the dump template extracted from _dump_format, split into reader lines (both newline conventions) and intersected with the reader regexes; CFG dominance rule on the __setitem__ resolved through the MRO: the validation (direct or through a hook method) dominates every statement that changes the object; who-may-catch rule: an assignment that runs the validator is not enclosed by a handler for ValueError; who-may-write rule for the value table of the mapping; positional/keyword agreement rule for the *args wrappers of the paragraph constructor (what is read from kwargs by name is read at its position too); hand-over of the wrapped constructor arguments interpreted under five calling conventions; the statement end to end on a family of values built from line classes: a paragraph built by the interpreted constructor, the value assigned through the interpreted __setitem__, the interpreted dump() read back by the interpreted iter_paragraphs under both settings (refused values leave the paragraph as it was; accepted ones give one paragraph with the same field names) -- the language-level rules are a second opinion behind it when the validator leaves their vocabulary',
     'level_text': 'Static decision over all strings of the property\'s domain (printable text, ":", "#", blank, tab, CR, LF '
                   'and printable non-ASCII classes): no line of a dumped accepted value other than the first is read as a '
                   'field, a paragraph end, a PGP header or a comment, and the first line is read as the same key.  Also that '
@@ -626,20 +626,21 @@ def check(src, rep, tier):
     rep.need('C08.R3', 4)
     from . import common
     rep.need('C08.R5', 4)
-    n_v, n_e = len(rep.violations), len(rep.errors)
-    rep.guard('C08.R5', r5_accept_and_reread, src, tier)
-    values_hold = len(rep.violations) == n_v and len(rep.errors) == n_e
-    # the language-level readings (exact for EVERY value of the domain, CR included) apply when the validator is written in the
-    # vocabulary of the model; where it is not, the interpreted values decide
-    soft = common.SoftErrors(rep, lambda: values_hold, 'the interpreted values (C08.R5), which are refused or read back as one paragraph with the same fields')
-    M = soft.guard('C08.R1', lambda r_: Model(src, r_))
-    if M is not None:
-        soft.guard('C08.R2', r2_same_line_notion, src, M)
-        soft.guard('C08.R1', r1_no_injection, src, M)
-        soft.guard('C08.R3', r3_check_before_commit, src, M)
-    elif values_hold:
-        for r_ in ('C08.R1', 'C08.R2', 'C08.R3'):
-            rep.min_instances[r_] = 0
+
+    def language_level(soft):
+        # exact for EVERY value of the domain, CR included, when the validator is written in the vocabulary of the model; where it is
+        # not, the interpreted values decide
+        M = soft.guard('C08.R1', lambda r_: Model(src, r_))
+        if M is not None:
+            soft.guard('C08.R2', r2_same_line_notion, src, M)
+            soft.guard('C08.R1', r1_no_injection, src, M)
+            soft.guard('C08.R3', r3_check_before_commit, src, M)
+        elif soft.softened:
+            for r_ in ('C08.R1', 'C08.R2', 'C08.R3'):
+                rep.min_instances[r_] = 0
+    common.two_readings(rep, 'C08.R5', lambda r_: r5_accept_and_reread(r_, src, tier), language_level,
+                        'the interpreted values (C08.R5), which are refused or read back as one paragraph with the same fields',
+                        'the language-level rules C08.R1 to R3, which apply and hold')
     rep.need('C08.R4', 5)
     n_v, n_e = len(rep.violations), len(rep.errors)
     rep.guard('C08.R4', r4b_handover, src)
